@@ -148,7 +148,80 @@ private:"""),
     }
     m_threads[0].detach();"""),
     dict(property="C17", name="block-waits-only-when-raising", rule="R-C17-5", file="src/core/parallel.cpp",
-         old="raise ? future.get() : future.wait();", new="if (raise) { future.get(); }"),]
+         old="raise ? future.get() : future.wait();", new="if (raise) { future.get(); }"),    # ---- C19
+    dict(property="C19", name="range-assign-before-check", rule="R-C19-1", file="src/parameter.cpp",
+         old="""    const auto value = static_cast<tscalar>(value_);
+
+    critical(!::nano::isfinite(value) ||""", new="""    const auto value = static_cast<tscalar>(value_);
+    param.m_value = value;
+
+    critical(!::nano::isfinite(value) ||"""),
+    dict(property="C19", name="pair-drop-isfinite", rule="R-C19-1", file="src/parameter.cpp",
+         old="critical(!::nano::isfinite(value1) || !::nano::isfinite(value2) || !::check(param.m_mincomp, param.m_min, value1) ||",
+         new="critical(!::nano::isfinite(value1) || !::check(param.m_mincomp, param.m_min, value1) ||"),
+    dict(property="C19", name="pair-order-uses-mincomp", rule="R-C19-1", file="src/parameter.cpp",
+         old="!::check(param.m_valcomp, value1, value2)", new="!::check(param.m_mincomp, value1, value2)"),
+    dict(property="C19", name="pair-values-swapped-on-store", rule="R-C19-1", file="src/parameter.cpp",
+         old="""    param.m_value1 = value1;
+    param.m_value2 = value2;""", new="""    param.m_value1 = value2;
+    param.m_value2 = value1;"""),
+    dict(property="C19", name="check-LE-as-strict", rule="R-C19-1", file="src/parameter.cpp",
+         old="return std::holds_alternative<LE_t>(lelt) ? (value1 <= value2) : (value1 < value2);",
+         new="return std::holds_alternative<LT_t>(lelt) ? (value1 <= value2) : (value1 < value2);"),
+    dict(property="C19", name="enum-check-after-store", rule="R-C19-1", file="src/parameter.cpp",
+         old="""    critical(std::find(param.m_domain.begin(), param.m_domain.end(), value) == param.m_domain.end(), "parameter (",
+             name, "): out of domain enumeration value, !('", value, "' in [", scat(param.m_domain), "])");
+
+    param.m_value = std::move(value);""",
+         new="""    param.m_value = std::move(value);
+    critical(std::find(param.m_domain.begin(), param.m_domain.end(), param.m_value) == param.m_domain.end(), "parameter (",
+             name, "): out of domain enumeration value, !('", param.m_value, "' in [", scat(param.m_domain), "])");
+"""),
+    dict(property="C19", name="clone-slices-to-fresh-object", rule="R-C19-4", file="src/solver/cgd.cpp",
+         old="""rsolver_t solver_cgd_dy_t::clone() const
+{
+    return std::make_unique<solver_cgd_dy_t>(*this);""", new="""rsolver_t solver_cgd_dy_t::clone() const
+{
+    return std::make_unique<solver_cgd_dy_t>();"""),
+    dict(property="C19", name="solver-copy-drops-type", rule="R-C19-4", file="src/solver.cpp",
+         old="""    , m_lsearchk(other.lsearchk().clone())
+    , m_type(other.type())
+{""", new="""    , m_lsearchk(other.lsearchk().clone())
+{"""),
+    dict(property="C19", name="solver-copy-reuses-default-lsearch", rule="R-C19-4", file="src/solver.cpp",
+         old="    , m_lsearch0(other.lsearch0().clone())\n    , m_lsearchk(other.lsearchk().clone())\n    , m_type(other.type())",
+         new="    , m_lsearch0(lsearch0_t::all().get(\"quadratic\"))\n    , m_lsearchk(other.lsearchk().clone())\n    , m_type(other.type())"),
+    dict(property="C19", name="default-outside-domain", rule="R-C19-3", file="src/lsearchk.cpp",
+         old='make_integer("lsearchk::max_iterations", 1, LE, 128, LE, 10000)', new='make_integer("lsearchk::max_iterations", 1, LE, 128, LE, 100)'),
+    dict(property="C19", name="override-outside-domain", rule="R-C19-3", file="src/solver/gd.cpp",
+         old='parameter("solver::tolerance") = std::make_tuple(1e-1, 9e-1);', new='parameter("solver::tolerance") = std::make_tuple(9e-1, 1e-1);'),
+    dict(property="C19", name="register-allows-duplicates", rule="R-C19-5", file="src/configurable.cpp",
+         old="""    critical(parameter_if(parameter.name()), "configurable: cannot register duplicated parameter (", parameter.name(),
+             ")!");
+
+    m_parameters.emplace_back(std::move(parameter));""", new="""    m_parameters.emplace_back(std::move(parameter));"""),
+    dict(property="C19", name="lookup-not-mandatory", rule="R-C19-5", file="src/configurable.cpp",
+         old="""parameter_t& configurable_t::parameter(const std::string_view name)
+{
+    return *find_param(m_parameters, name, true);""", new="""parameter_t& configurable_t::parameter(const std::string_view name)
+{
+    return *find_param(m_parameters, name, false);"""),
+    dict(property="C19", name="value-write-outside-update", rule="R-C19-2", file="src/parameter.cpp",
+         old="""parameter_t& parameter_t::seti(int64_t value)
+{
+    ::update(m_name, m_storage, value);""", new="""parameter_t& parameter_t::seti(int64_t value)
+{
+    if (auto* p = std::get_if<irange_t>(&m_storage)) { p->m_value = std::clamp(value, p->m_min, p->m_max); return *this; }
+    ::update(m_name, m_storage, value);"""),
+    dict(property="C19", name="typed-read-accepts-frange-as-pair", rule="R-C19-6", file="include/nano/parameter.h", tu="src/parameter.cpp",
+         old="""                                     [this](const auto&)
+                                     {
+                                         logical_error();
+                                         return std::tuple<tscalar, tscalar>{};
+                                     }},""", new="""                                     [](const auto&)
+                                     {
+                                         return std::tuple<tscalar, tscalar>{};
+                                     }},"""),]
 
 BENIGN = [
     dict(property="C07", name="lemarechal-swap-operands", file="src/lsearchk/lemarechal.cpp",
@@ -180,4 +253,10 @@ BENIGN = [
                 m_queue.m_condition.notify_all();
             }
 """),
+    dict(property="C19", name="range-check-reordered", file="src/parameter.cpp",
+         old="""    critical(!::nano::isfinite(value) || !::check(param.m_mincomp, param.m_min, value) ||
+                 !::check(param.m_maxcomp, value, param.m_max),""", new="""    critical(!::check(param.m_maxcomp, value, param.m_max) || !::nano::isfinite(value) ||
+                 !::check(param.m_mincomp, param.m_min, value),"""),
+    dict(property="C19", name="default-changed-inside-domain", file="src/lsearchk.cpp",
+         old='make_integer("lsearchk::max_iterations", 1, LE, 128, LE, 10000)', new='make_integer("lsearchk::max_iterations", 1, LE, 256, LE, 10000)'),
 ]
